@@ -133,7 +133,10 @@ def run_one(k, m, args):
         return res
     finally:
         subprocess.run(["git", "-C", "/repo", "worktree", "remove", "--force", wt], capture_output=True)
-        subprocess.run(["rm", "-rf", V + "/_build/mut_evidence_%d" % k, V + "/_build/run/*_m%d" % k])
+        import glob
+        import shutil
+        for d in [V + "/_build/mut_evidence_%d" % k, V + "/_build/props_m%d" % k] + glob.glob(V + "/_build/run/*_m%d" % k):
+            shutil.rmtree(d, ignore_errors=True)
 
 
 def main():
